@@ -74,8 +74,12 @@ def generate_all(specs, procs=16):
     _SPECS = list(specs)
     if len(specs) <= 1 or procs == 1:
         return [_gen(i) for i in range(len(specs))]
-    with mp.get_context("fork").Pool(min(procs, len(specs))) as pool:
-        return pool.map(_gen, range(len(specs)), chunksize=1)
+    return solve.robust_map(_gen, list(range(len(specs))), min(procs, len(specs)), _gen_crashed)
+
+
+def _gen_crashed(i):
+    spec = _SPECS[i]
+    return {"file": getattr(spec, "file", "?"), "qualname": getattr(spec, "qualname", "?"), "variant": getattr(spec, "variant", None), "sha256": "-", "paths": 0, "obligations": [], "canaries": [], "error": "engine crash: the generator process died (memory limit?)", "gen_time": 0.0}
 
 
 def verify(specs, z3_ms=10000, cvc5_ms=20000, both=False, extra_obligations=None):
